@@ -17,7 +17,7 @@ GROUPS = {
     'hll': ('pocket-types', [('hll8.rs', 'pocket-types/src/hll8.rs')],
             ['merge_is_registerwise_max', 'merge_commutative', 'merge_associative', 'merge_idempotent',
              'new_and_clear_are_empty', 'add_element_rho_semantics', 'add_element_is_max_with_singleton',
-             'add_element_err_iff_offset_out_of_range'], []),
+             'add_element_err_iff_offset_out_of_range', 'estimate_count_any_last_register_does_not_panic'], []),
     # leaf contracts that stand for repo code Verus cannot read (used as assumptions by the Verus units)
     'leaf': ('pocket-types', [('leaf_json_escape.rs', 'pocket-types/src/json/json_escape.rs'), ('leaf_kind.rs', 'pocket-types/src/kind.rs'),
                               ('leaf_event.rs', 'pocket-types/src/event.rs')],
@@ -100,13 +100,18 @@ def run_group(group, repo, tier='quick', harness_filter=None):
 def parse(out, harnesses, res):
     # split per harness
     # -j mode: "Thread N: Checking harness X..." then result blocks headed "Thread N:"
-    tmap = dict((t, n.split('::')[-1]) for t, n in re.findall(r'(?m)^Thread (\d+): Checking harness ([\w:]+)\.\.\.', out))
     blocks = []
-    if tmap:
-        parts = re.split(r'(?m)^Thread (\d+): *$', out)
-        for i in range(1, len(parts) - 1, 2):
-            if parts[i] in tmap:
-                blocks.append(tmap[parts[i]] + '...' + parts[i + 1])
+    if re.search(r'(?m)^Thread (\d+): Checking harness ', out):
+        # a thread may check several harnesses one after the other: a result block headed "Thread N:" belongs to the
+        # harness that thread announced last
+        cur = {}
+        marks = list(re.finditer(r'(?m)^Thread (\d+): (?:Checking harness ([\w:]+)\.\.\.)? *$', out))
+        for k, m in enumerate(marks):
+            if m.group(2):
+                cur[m.group(1)] = m.group(2).split('::')[-1]
+            elif m.group(1) in cur:
+                end = marks[k + 1].start() if k + 1 < len(marks) else len(out)
+                blocks.append(cur[m.group(1)] + '...' + out[m.end():end])
     else:
         blocks = re.split(r'(?m)^Checking harness ', out)[1:]
     seen = {}
